@@ -957,3 +957,14 @@ _run_before_r5 = run
 def run(ctx):
     _run_before_r5(ctx)
     r5_move_lists(ctx)
+
+
+_run_before_shared_history = run
+
+
+def run(ctx):
+    _run_before_shared_history(ctx)
+    # "irrespective of what was searched before on the same engine instance": the repetition history of a new
+    # position command starts empty (shared with C10.R2), otherwise hashes of the previous game are counted
+    from . import c10
+    c10.r2_history(ctx)
